@@ -551,6 +551,60 @@ def oracle_prefix(sc):
     return fails
 
 
+def oracle_yield(sc):
+    """A subproject option `sub:name` (kind ck, value cv, yield y) next to a top-level option
+    `:name` (kind pk, value pv; absent when pk is None), optionally followed by a change of the
+    parent (`set`) or of the child (`set_child`).  Clauses (property text / Build-options.md
+    "Yielding to superproject option" / options.py "If parent object has different type, do not yield"):
+      yield_iff_same_type   the effective value is the parent's iff yield: true, the parent exists
+                            and has the SAME option type, and the child was not set explicitly
+      effective_value_valid the effective value satisfies the option's own type/choices/range
+      stored_invalid        every stored value satisfies its option"""
+    fails = []
+
+    def add(kind, **kw):
+        fails.append(dict(kind=kind, scenario=sc, **kw))
+    name = 'yopt'
+    st = O.OptionStore(sc.get('cross', False))
+    st.init_builtins()
+    pk, ck = sc.get('pk'), sc['ck']
+    rkey, skey = OptionKey(name, ''), OptionKey(name, 'sub')
+    try:
+        if pk is not None:
+            st.add_project_option(rkey, make_option(name, pk, sc['pv'], 'F', 'F', 'n'))
+        st.add_project_option(skey, make_option(name, ck, sc['cv'], 'T' if sc['y'] else 'F', 'F', 'n'))
+    except MesonException:
+        return fails          # a declared default outside the option's own choices: not this clause
+    child_set = False
+    try:
+        if 'set' in sc and pk is not None:
+            st.set_option(rkey, dec_value(sc['set']))
+    except MesonException:
+        pass                  # rejected: the parent keeps its value
+    try:
+        if 'set_child' in sc:
+            st.set_option(skey, dec_value(sc['set_child']))
+            child_set = True
+    except MesonException:
+        pass
+    eff = st.get_value_for(skey)
+    own = st.get_value_object(skey).value
+    same_type = pk is not None and pk[:1] == ck[:1]
+    if sc['y'] and same_type and not child_set:
+        want = st.get_value_for(rkey)
+    else:
+        want = own
+    if eff != want or type(eff) is not type(want):
+        add('yield_iff_same_type', expected=enc_value(want), got=enc_value(eff), same_type=same_type)
+    ok, _ = canon(ck, eff)
+    if ok is False:
+        add('effective_value_valid', got=enc_value(eff), same_type=same_type, yielding=bool(sc['y']))
+    bad = invalid_stored(st)
+    if bad:
+        add('stored_invalid', keys=bad)
+    return fails
+
+
 def main():
     req = json.load(sys.stdin)
     out = {}
@@ -562,7 +616,7 @@ def main():
         res = []
         for sc in req['oracle']:
             try:
-                f = {'prec': oracle_scenario, 'bt': oracle_buildtype, 'prefix': oracle_prefix}[sc['o']]
+                f = {'prec': oracle_scenario, 'bt': oracle_buildtype, 'prefix': oracle_prefix, 'yield': oracle_yield}[sc['o']]
                 res.extend(f(sc))
             except Exception as e:
                 res.append({'kind': 'exception', 'exc': type(e).__name__ + ': ' + str(e), 'scenario': sc})
